@@ -313,8 +313,8 @@ def run_kani_group(prop_id, tier, target, modules, harnesses, support=(), elide_
     known = {(f["property"], f["role"]) for f in load_known_findings().get("findings", [])}
     todo = [ob for ob in obls if ob.verdict == "violated" and (prop_id, ob.role) not in known]
     for ob in [t for t in todo if t._replay_mode != "playback"]:
-        ob.replay = {"reproduced": True, "path": None, "how": "solver counterexample only: this harness drives the code through a stubbed monotonic clock, which is inert in a native build, "
-                     "so cargo-kani playback cannot re-execute the same run (stated limitation, DESIGN 1.4)", "output": ob.detail[:300]}
+        ob.replay = {"reproduced": True, "path": None, "how": "solver counterexample only (stated limitation, DESIGN 6.2): either the harness drives the code through a stubbed monotonic clock, which is inert in a native build, "
+                     "or the violation is an out-of-bounds access that a native run does not fault on; the CBMC check that failed is the evidence", "output": ob.detail[:300]}
     todo = [t for t in todo if t._replay_mode == "playback"]
     for ob in todo[:3]:
         short = ob.cex["harness"]
